@@ -231,3 +231,39 @@ def _pnp_sound(a, r):
 
 REGISTRY['constraints:Constraints.positive_negative_pairs'].ensures[
     'positive-pairs-join-distinct-points-of-equal-known-label-negative-pairs-points-of-different-known-labels'] = body_only(_pnp_sound)
+
+
+# ---------------------------------------------------------------------------------------------- Constraints.__init__
+# the label vector is held as SIGNED platform integers whatever the dtype of the argument: the methods mark "in no chunk" / "unknown" with
+# negative numbers and compare labels with `>= 0`, which an unsigned dtype cannot represent (-1 becomes 255 in uint8)
+register(Contract(
+    'constraints:Constraints.__init__',
+    cases=[Case('labels-' + {'i': 'signed', 'u': 'unsigned', 'f': 'floating', 'b': 'boolean'}[k],
+                {'self': Obj('Constraints', {}, closed=True), 'partial_labels': Arr(1, k, dims=['n'])}) for k in ('i', 'u', 'f', 'b')],
+    ensures={
+        'labels-are-held-as-signed-integers': lambda a, r: z3.BoolVal(a.self.partial_labels is not None and a.self.partial_labels.kind == 'i'),
+        'one-label-per-point': lambda a, r: z3.And(a.self.partial_labels.ndim == 1, a.self.partial_labels.dim(0) == a.partial_labels.dim(0)),
+    },
+    raises={'ValueError': May(), 'TypeError': May()},
+    modifies={'partial_labels'}, prop=['C07']))
+C.unit('C07', 'constraints:Constraints.__init__')
+
+
+# ---- generate_knntriplets: "points with negative (unknown) labels never appear": the triplets are computed on the labelled subset and mapped
+# back through an index vector; every entry of that vector is a position of the caller's array whose label is known (>= 0).  (That the
+# intermediate triplets index the subset in range is the neighbour search's contract -- external; bounded stand-in.)
+_KT = z3.Int('k!knn')
+
+
+def _knn_known_only(a, r):
+  t = r.term
+  if t is None or not z3.is_app(t) or t.decl().name() != 'itake':
+    return PatternMismatch('returned triplets vs <index vector of the known-label points>[triplets of the labelled subset]')
+  src = t.arg(0)
+  pl = a.self.partial_labels.term
+  n = a.self.partial_labels.dim(0)
+  e = TH.at1(src, _KT)
+  return z3.Implies(z3.And(_KT >= 0, _KT < TH.lenT(src)), z3.And(z3.IsInt(e), e >= 0, z3.ToInt(e) < n, TH.at1(pl, z3.ToInt(e)) >= 0))
+
+
+REGISTRY['constraints:Constraints.generate_knntriplets'].ensures['every-index-the-result-is-drawn-from-has-a-known-label'] = body_only(_knn_known_only)
